@@ -107,6 +107,9 @@ def main():
         if 'error' in r:
             print('%-22s ERROR %s' % (mid, r['error']))
     path = os.path.join(SEEDED, 'RESULTS.json')
+    import fcntl
+    lk = open(path + '.lock', 'w')
+    fcntl.flock(lk, fcntl.LOCK_EX)   # several invocations may run side by side
     old = {}
     try:
         old = {r['id']: r for r in json.load(open(path))}
